@@ -101,7 +101,7 @@ def fixed_models(v, reg, param):
                 intd, lead0 = 1, not (carry and k == 0)
             sign = 1 if (reg.neg or sp.sign in "+ ") else 0
             c = Cols(sign=sign, intd=intd, lead0=lead0, point=(P > 0 or sp.alt) and sp.typ != "d", P=P,
-                     frac_zero=carry or kind == "round")
+                     frac_zero=(carry and k >= 0) or kind == "round")      # 0.0999..96 -> 0.1000000: the fraction is not all zeros
             pad = max(0, w - c.width)
             al = sp.eff_align(False)
             if al == "<":
